@@ -10,4 +10,5 @@ CONSTANTS
   MaxUpdate = 0
   ClearOnSet = TRUE
   ClearOnDelete = TRUE
+  BareKeyShortcut = FALSE
 INVARIANT Sound
